@@ -957,6 +957,19 @@ def check_C15(tier):
     scenario_unkeyable(run, 2 if t else 1, 20)
     scenario_recursive(run, 1000 if t else 150, raising=True)
     scenario_probes(run, {'bulk', 'purge_off', 'clear'}, backends=('dictarch', 'file'))
+    # one decorator object on two functions: calls of the sibling are not part of f's account.  (Only the decorators without
+    # eviction: the two wrappers share the cache but not the recency / frequency bookkeeping, which is the user's risk.)
+    rng = run.rng
+    for _ in range(600 if t else 100):
+        cfg = py_cfg(rng.choice(['std', 'safe']), rng.choice(['inf', 'no']), 2, rng.choice(['plain', 'dictarch', 'file']),
+                     rng.choice([('str', True, False), ('hash-md5', True, False), ('default', True, False)]))
+        cfg['sibling'] = True
+        ops = []
+        for o in cd.random_ops(rng, 26 if t else 20, cfg, 9, 'nobulk'):
+            if rng.random() < 0.3:
+                o = {'op': 'sibcall', 'a': rng.randint(1, 7)}
+            ops.append(o)
+        run.jobs.append((cfg, ops, None))
     return run.finish(assumptions=ASSUME)
 
 
